@@ -1408,7 +1408,11 @@ class C19(Family):
                 if same:
                     cands = [(f, d) for f, d in cands
                              if not (f.get("kind") == "result-shares-state"
-                                     and f.get("operand") in ("list", "dict", "tuple")
+                                     and (f.get("operand") in ("list", "dict", "tuple")
+                                          # an interconnected system refers to its subsystems (`syslist`)
+                                          # by design: it is a container of the caller's systems too
+                                          or (f.get("operand") in ("InterconnectedSystem", "LinearICSystem")
+                                              and f.get("attr") == "syslist"))
                                      and any(f.get("op") == g.get("op") for g in same))] or cands
                 feat, detail = next(((f, d) for f, d in cands if match_known(self.known(), f) is None), cands[0])
                 return Verdict(VIOLATES, detail, feat)
